@@ -761,7 +761,16 @@ impl Server {
                         
                         // Handle SYNC/PSYNC commands that need connection access
                         if command == "SYNC" || command == "PSYNC" {
-                            sync_response = Some(self.handle_sync_command(&command, parts, id)?);
+                            // The replication handshake is a data-bearing command: it must pass
+                            // the same authentication gate as everything else (process_frame
+                            // answers NOAUTH for an unauthenticated connection)
+                            let authenticated = self.config.password.is_none()
+                                || self.connections.with_connection(id, |conn| {
+                                    conn.state == ConnectionState::Authenticated
+                                }).unwrap_or(false);
+                            if authenticated {
+                                sync_response = Some(self.handle_sync_command(&command, parts, id)?);
+                            }
                         }
                     }
                 }
